@@ -185,7 +185,7 @@ func rulesC16(c *Ctx) {
 	commentsRule(c, "C16.comments")
 	openersRule(c, "C16.openers")
 	// the lexer's dispatch must enter a comment body after both runes of its opener
-	importRules(c, rulesC05, "C05.", "C16.lexer-", func(r string) bool { return r == "C05.consume" })
+	importRules(c, rulesC05, "C05.", "C16.lexer-", func(r string) bool { return r == "C05.consume" || r == "C05.rawread" })
 	peekDepthRule(c, "C16.peekdepth")
 	wsRunRule(c, "C16.wsrun")
 	parserStateRule(c, "C16.parserstate")
